@@ -255,6 +255,103 @@ class FromPeriodicRunSleep(FromPeriodicRun):
                        text='emitted == [] and len(sleeps) == 1 and sleeps[0] == self._poll')]
 
 
+class ServerSourceStop(SourceSeg):
+    """stop() of the socket-server sources (from_tcp, from_http_server): stopping a started source stops its server exactly once and
+    marks it stopped; stopping a stopped source has no effect (it must not touch the server that is already gone)."""
+    method = 'stop'
+    props = ['C18']
+    reentrancy_generic = False
+
+    def make_self(self, I):
+        f = SourceSeg.make_self(self, I)
+        I.st.ghost['server_stops'] = VInt(0)
+        stopped = I.truth(f['stopped'])
+        # a stopped source has no server any more (stop() sets it to None, the constructor starts without one)
+        srv = VRef(z3.Const('server', sym.Obj), 'Server')
+        I.st.ghost['had_server'] = VBool(z3.Not(stopped))
+        f['server'] = srv
+        return f
+
+    def summaries(self):
+        d = SourceSeg.summaries(self)
+
+        def server_stop(I, recv, args, kwargs):
+            g = I.st.ghost
+            # calling stop() on the server of a source that is already stopped means calling it on None
+            if I.branch(z3.Not(I.truth(g['had_server']))):
+                raise PyRaise(sym.VExc('AttributeError'))
+            g['server_stops'] = VInt(g['server_stops'].t + 1)
+            return NONE
+        d['Server.stop'] = server_stop
+        return d
+
+    def clauses(self):
+        return [Clause('C18.stop_of_a_started_server_source_stops_the_server_once', ['C18'], when='return',
+                       text='implies(not old(self.stopped), self.stopped and server_stops == 1 and self.server is None)'),
+                Clause('C18.stopping_a_stopped_source_has_no_effect', ['C18'], when='return',
+                       text='implies(old(self.stopped), self.stopped and server_stops == 0)'),
+                Clause('C18.stop_never_fails', ['C18'], when='raise', text='False',
+                       note='e.g. a second stop() reaching the source through two branches of the graph')]
+
+
+class FromQRun(SourceSeg):
+    """from_q._run: one cycle polls the queue at most once; after the emission of a polled item has been awaited the cycle is over
+    (run() re-checks `stopped` before the next one)."""
+    cls = 'from_q'
+    method = '_run'
+    props = ['C18', 'C03']
+    reentrancy_generic = False
+    emission_must_be_awaited = False
+    assumptions = SourceSeg.assumptions + ('queue.Queue.get_nowait returns the oldest item or raises queue.Empty (trusted)',)
+
+    def make_self(self, I):
+        f = SourceSeg.make_self(self, I)
+        f['q'] = VRef(z3.Const('q', sym.Obj), 'PyQueue')
+        f['sleep'] = VReal(z3.Real('sleep_time'))
+        I.st.ghost['polls'] = VInt(0)
+        I.st.ghost['emits'] = VInt(0)
+        return f
+
+    def globals(self):
+        d = SourceSeg.globals(self)
+        d['queue'] = VBuiltin('queue')
+        return d
+
+    def summaries(self):
+        d = SourceSeg.summaries(self)
+
+        def get_nowait(I, recv, args, kwargs):
+            g = I.st.ghost
+            g['polls'] = VInt(g['polls'].t + 1)
+            if I.branch(z3.Bool(sym.fresh_name('queue_empty'))):
+                raise PyRaise(sym.VExc('Empty'))
+            return VElem(z3.Const(sym.fresh_name('item'), sym.Elem))
+
+        def emit(I, recv, args, kwargs):
+            g = I.st.ghost
+            g['emits'] = VInt(g['emits'].t + 1)
+            return VAw(z3.Const(sym.fresh_name('emit_aw'), sym.Aw))
+        d['PyQueue.get_nowait'] = get_nowait
+        d['from_q.emit'] = emit
+        d['Stream.emit'] = emit
+        return d
+
+    def clauses(self):
+        return [Clause('C18.one_poll_per_cycle', ['C18'], when='normal', text='polls <= 1 and emits <= polls',
+                       note='a cycle takes at most one item; whether another cycle begins is decided by run() looking at `stopped`')]
+
+
+class FromQRunResumed(FromQRun):
+    start = 1
+    name = 'from_q._run@1'
+
+    def clauses(self):
+        return [Clause('C18.cycle_ends_once_the_emission_has_been_awaited', ['C18'], when='normal',
+                       text='polls == 0 and emits == 0',
+                       note='no further item is taken inside the same cycle: after stop() nothing more is emitted'),
+                Clause('C18.cycle_ends_by_returning', ['C18'], when='yield', text='False')]
+
+
 def _per_source(base, cls):
     """the lifecycle contract re-proved for the start/stop a concrete source class resolves to (an override is verified,
     not assumed)"""
@@ -263,8 +360,9 @@ def _per_source(base, cls):
 
 SUBCLASS_LIFECYCLE = [_per_source(b, c) for c in ('from_iterable', 'from_periodic', 'from_textfile', 'filenames')
                       for b in (SourceStart, SourceStop)]
+SUBCLASS_LIFECYCLE += [_per_source(ServerSourceStop, c) for c in ('from_tcp', 'from_http_server')]
 for _c in SUBCLASS_LIFECYCLE:
     globals()[_c.__name__] = _c
 
-ALL = SUBCLASS_LIFECYCLE + [SourceInit, SourceStart, SourceStop, SourceRunHead, SourceRunAfterCycle, FromIterableRun, FromIterableRunResumed,
+ALL = SUBCLASS_LIFECYCLE + [FromQRun, FromQRunResumed, SourceInit, SourceStart, SourceStop, SourceRunHead, SourceRunAfterCycle, FromIterableRun, FromIterableRunResumed,
        FromPeriodicRun, FromPeriodicRunSleep]
